@@ -16,12 +16,14 @@ pub struct LoopCfg {
   pub possibly_zero_divisor: bool,
   /// the guard expression re-used as the loop's result
   pub guard_as_result: bool,
+  /// comparisons of `i + c1` with a constant (recorded finding: merged into `i < c2 - c1` although the sum may wrap)
+  pub compare_after_add: bool,
   pub max_loops: usize,
 }
 
 impl Default for LoopCfg {
   fn default() -> Self {
-    LoopCfg { effects_in_loop: true, derived_iv: true, possibly_zero_divisor: true, guard_as_result: true, max_loops: 4 }
+    LoopCfg { effects_in_loop: true, derived_iv: true, possibly_zero_divisor: true, guard_as_result: true, compare_after_add: true, max_loops: 4 }
   }
 }
 
@@ -113,7 +115,7 @@ fn gen_loop(t: &mut Tape, cfg: &LoopCfg, k: usize, inner: Option<usize>) -> Loop
     // an effect inside an argument of the recursive call
     format!("if {{\n        let _ = Process.println(\"tick\");\n        {}\n      }} {{ {a} }} else {{ {b} }}", ["true", "false", "i % 2 == 0", "p"][t.choose(4)])
   };
-  let update = match t.weighted(&[4, if cfg.derived_iv { 4 } else { 0 }, 3, 2, 2, if cfg.possibly_zero_divisor { 3 } else { 0 }, 2, if inner.is_some() { 4 } else { 0 }, 2, 2, if cfg.derived_iv { 4 } else { 0 }, 2, if effects { 3 } else { 0 }]) {
+  let update = match t.weighted(&[4, if cfg.derived_iv { 4 } else { 0 }, 3, 2, 2, if cfg.possibly_zero_divisor { 3 } else { 0 }, 2, if inner.is_some() { 4 } else { 0 }, 2, 2, if cfg.derived_iv { 4 } else { 0 }, 2, if effects { 3 } else { 0 }, 4, if cfg.compare_after_add { 3 } else { 0 }]) {
     0 => "acc + i".to_string(),
     1 => format!("acc + (i * {} + {})", lit(kc), lit(cc)),
     2 => "acc * 3 + i".to_string(),
@@ -137,6 +139,18 @@ fn gen_loop(t: &mut Tape, cfg: &LoopCfg, k: usize, inner: Option<usize>) -> Loop
       _ => "j".to_string(),
     },
     11 => lit(cc),
+    // the same two operands of a non-commutative operator in both orders (value numbering / CSE keys)
+    13 => match t.choose(4) {
+      0 => "acc + ((i - j) - (j - i) * 3)".to_string(),
+      1 => "acc + (if i < j { 1 } else { 0 }) + (if j < i { 2 } else { 0 }) + (if i <= j { 4 } else { 0 }) + (if j <= i { 8 } else { 0 })".to_string(),
+      2 => "(acc - i) + (i - acc)  * 2 + (b - i) - (i - b)".to_string(),
+      _ => "acc + (i % 7 - j % 7) + (j % 7 - i % 7) * 5".to_string(),
+    },
+    14 => {
+      let c1 = [1, -1, 2, 7, 1000, 2147483647, -2147483647][t.choose(7)];
+      let c2 = INTERESTING[t.choose(INTERESTING.len())];
+      format!("acc + (if i + {} {} {} {{ 1 }} else {{ 0 }})", lit(c1), ["<", "<=", ">", ">="][t.choose(4)], lit(c2))
+    }
     _ => tick(t, "acc + 1".to_string(), if cfg.derived_iv { format!("i * {}", lit(kc)) } else { "acc + i".to_string() }),
   };
   let result = match t.weighted(&[5, if cfg.derived_iv { 3 } else { 0 }, 2, if cfg.derived_iv { 2 } else { 0 }, if cfg.guard_as_result { 2 } else { 0 }, 2]) {
